@@ -19,12 +19,18 @@ CLAIMED = {
  "C09": ("invariant hook on ToArgs.found_index + post-condition on every to_code_data call with first-use ranks from dis and removal experiments through the real encoder",
          "Every override in decoded data is compared with the entry's first-use rank recomputed from dis; an override sitting at its rank is only accepted if removing it from all uses makes the real encoder produce a different code object (or fail); additional args must be exactly the unreferenced table entries.",
          "At most 24 removal experiments per code object; ranks use the property's seeding rule (parameters, docstring first).", "5/C09"),
+ "C05": ("post-condition monitor on the outermost to_code_data call (normalize + real to_code, then symbolic dis/Addr2Line stream, header and line-event-window comparison, recursively) + behavioural oracle: generated programs executed (original and normalized) in a child process under sys.settrace",
+         "Static: every code object of the workloads: same opnames, same resolved operands (names, locals, cell/free names, type- and bit-exact constants, nested code paired by instruction order), same jump structure (target instruction index, kind), same line per instruction, same header (signature, __doc__ slot, freevars, name, filename, first line, stacksize, flags modulo NESTED/NOFREE), cell variables only removed, NOFREE only gained when a cell vanished, same line-event windows (CPython's own _PyCode_CheckLineNumber on 3.7-3.9, merged co_lines on 3.10). Behavioural: stdout, exception and the full (code name, event, line) trace of generated terminating programs agree.",
+         "Window differences at unreachable instructions are counted, not judged; executed programs are the generator's own; 30 s watchdog => inconclusive.", "5/C05"),
  "C07": ("runtime post-condition monitor on code_data_to_json (strict-JSON walk + in-process schema validation), real json text cycle, and offline validation of every recorded document by jsonschema (Draft 7 + 2020-12), fastjsonschema and an orjson cycle",
          "Every decoded and normalized CodeData of the workloads (corpus programs plus W9: constants over type x nesting x edge values planted as operands, unreferenced constants, docstring, filename, name, global/local/cell/free variable names) is serialized under the monitor, dumped with allow_nan=False as ASCII and UTF-8 text, parsed, loaded and compared (==, NaN-identifying strict code comparison); all documents are re-validated offline by three independent JSON/schema implementations.",
          "Trusts json/orjson/jsonschema/fastjsonschema; ints bounded at 4000 digits; jsonschema (slow) only sees documents below a size cap, fastjsonschema and the in-process validator see all.", "5/C07"),
  "C08": ("pool monitor over values produced by different routes (decode, decode of an identity-fresh marshal clone, JSON load, deepcopy, normalize, hand construction) checking the algebraic laws of ==/hash pairwise and Constant equality against ctypes _PyCode_ConstantKey",
          "All pairs within buckets: symmetry, != consistency, a==b => hash equal, set/dict lookup, transitivity over the CPython-distinct families, Constant equality == CPython's constant partition with NaNs identified, equal CodeData => identical to_code(), identical code => equal decoded data, frozen-ness probes (setattr/delattr/new attribute must raise; only immutable containers reachable).",
          "Reference partition for NaN-containing values is an own structural comparison (the exception stated by the property); pair buckets are bounded.", "5/C08"),
+ "C10": ("wrappers on to_line_mapping / from_line_mapping + driver over model-emitted tables (ports of CPython's assemblers incl. the peephole lnotab fix-up) and every table in compiled code; reference for decoding = PyCode_Addr2Line / co_lines",
+         "Decode direction: every code-unit offset of every table is compared with CPython's own reader (valid for any byte table). Encode direction: byte equality of from_line_mapping(to_line_mapping(c)) for compiler-emitted tables (W1-W4) and model-emitted tables (deltas around 127/128/254/255/multiples, gaps, zero-width entries, mixed signs, no-line runs of 1..512 units); model fidelity is measured on each run by regenerating the real tables. Model tables also go through the whole from_code -> to_code pipeline on 1-unit NOP bytecode.",
+         "Assembler models are generators only; a model-emitted failure is labelled as such in the witness.", "5/C10"),
  "C11": ("runtime post-condition monitors on to_flags_data (all subsets of the 18 CPython-defined flags; unknown bits alone, mixed, and after IntFlag materialisation) and on to_code_data for hand-altered headers",
          "Flag words: every subset of the interpreter's 18 named flags is pushed through to_flags_data under a monitor requiring exact re-encoding and no exception (exhaustive on every interpreter in the thorough tier; in the quick tier exhaustive on 3.9/3.10 and every 8th subset on 3.7/3.8 where enum._decompose is quadratic); words with an unknown bit must raise or re-encode exactly. Headers: ~40 base code objects x (each of 32 flag bits toggled, flag pairs, argument counts and nlocals +-1/+2): from_code must raise or return data whose to_code() reproduces every header field.",
          "Known flags are taken from dis.COMPILER_FLAG_NAMES and __future__ of the running interpreter, not from the library's enum; headers CPython refuses to construct are skipped.", "5/C11"),
